@@ -15,7 +15,9 @@ RULE = ("1..5 registered expressions (Micheline trees over protocol primitives) 
         "argument, sequence-item and root position (type, code and data positions for the contract sub-family), "
         "unknown hashes, and reference-free scripts. Oracle: reference expansion by hash = b58('expr', blake2b-256("
         "reference binary encoding)); result equal, input not mutated, unknown hash raises, registry key equals the "
-        "reference hash, ContractInterface.from_micheline(script, context).to_micheline() equals the expanded script. "
+        "reference hash, ContractInterface.from_micheline(script, context).to_micheline() equals the expanded script; the same "
+        "context is asked a second time, and again after constants that were missing have been registered: every call is judged "
+        "against the registry of that moment. "
         "Non-trivial: a constant is reached through another constant, or >=2 references in one script. "
         "Distinct = distinct (constants, script).")
 
@@ -33,7 +35,7 @@ def const_ref(h):
 def ref_expand(e, table, depth=0):
     if isinstance(e, list):
         return [ref_expand(x, table, depth) for x in e]
-    if isinstance(e, dict) and e.get("prim") == "constant":
+    if isinstance(e, dict) and e.get("prim") == "constant" and e.get("args") and "string" in e["args"][0]:
         h = e["args"][0]["string"]
         if h not in table:
             raise KeyError(h)
@@ -62,24 +64,20 @@ def count_refs(e, table, through=False):
     return 0, 0
 
 
-def oracle(case):
-    from pytezos.context.impl import ExecutionContext
-    consts = case["constants"]
-    ctx = ExecutionContext()
-    table = {}
-    for c in consts:
-        h = ref_hash(c)
-        table[h] = c
-        before = set(ctx.global_constants)
-        try:
-            ctx.register_global_constant(copy.deepcopy(c))
-        except Exception as e:
-            raise Violation("register_global_constant raised %r on %r" % (e, c), case, "register-raise")
-        new = set(ctx.global_constants) - before
-        if h not in ctx.global_constants:
-            raise Violation("constant %r registered under %s, Tezos hash is %s" % (c, sorted(new), h), case,
-                            "wrong-hash")
-    script = case["script"]
+def _register(ctx, c, table, case):
+    h = ref_hash(c)
+    table[h] = c
+    before = set(ctx.global_constants)
+    try:
+        ctx.register_global_constant(copy.deepcopy(c))
+    except Exception as e:
+        raise Violation("register_global_constant raised %r on %r" % (e, c), case, "register-raise")
+    new = set(ctx.global_constants) - before
+    if h not in ctx.global_constants:
+        raise Violation("constant %r registered under %s, Tezos hash is %s" % (c, sorted(new), h), case, "wrong-hash")
+
+
+def _resolve_once(ctx, script, table, case, label):
     arg = copy.deepcopy(script)
     try:
         want = ref_expand(script, table)
@@ -95,13 +93,37 @@ def oracle(case):
         raise Violation("resolve_global_constants mutated its input: %r -> %r" % (script, arg), case, "input-mutated")
     if want_err is not None:
         if err is None:
-            raise Violation("unknown constant %s expanded to %r" % (want_err, got), case, "unknown-accepted")
-        return "unknown"
+            raise Violation("%sunknown constant %s expanded to %r" % (label, want_err, got), case,
+                            "unknown-accepted" + (":later-call" if label else ""))
+        return "unknown", None
     if err is not None:
-        raise Violation("resolve_global_constants raised %r on %r (constants %r)" % (err, script, consts), case,
-                        "resolve-raise")
+        raise Violation("%sresolve_global_constants raised %r on %r (constants %r)" % (label, err, script, sorted(table)), case,
+                        "resolve-raise" + (":later-call" if label else ""))
     if got != want:
-        raise Violation("expansion differs: got %r want %r (script %r)" % (got, want, script), case, "wrong-expansion")
+        raise Violation("%sexpansion differs: got %r want %r (script %r)" % (label, got, want, script), case,
+                        "wrong-expansion" + (":later-call" if label else ""))
+    return "ok", want
+
+
+def oracle(case):
+    from pytezos.context.impl import ExecutionContext
+    consts = case["constants"]
+    late = case.get("late") or []
+    ctx = ExecutionContext()
+    table = {}
+    for c in consts:
+        _register(ctx, c, table, case)
+    script = case["script"]
+    res, want = _resolve_once(ctx, script, table, case, "")
+    # the same context is asked again, then after the constants that were missing have been registered: every call is judged
+    # against the registry as it stands at that moment (no result of an earlier call may survive)
+    res2, _ = _resolve_once(ctx, script, table, case, "second call on the same context: ")
+    for c in late:
+        _register(ctx, c, table, case)
+    if late:
+        res, want = _resolve_once(ctx, script, table, case, "call after registering %d more constant(s): " % len(late))
+    if res == "unknown":
+        return "unknown"
     if case.get("contract"):
         from pytezos.contract.interface import ContractInterface
         try:
@@ -160,7 +182,13 @@ def generic_case(draw):
             inner = [const_ref(bogus)]
             consts.append(inner)
             script = [base, const_ref(ref_hash(inner))]
-    return {"constants": consts, "script": script, "mode": mode}
+    late = []
+    if len(consts) >= 2 and draw(st.integers(0, 2)) == 0:  # some constants become known only after the first attempts
+        k = draw(st.integers(1, len(consts) - 1))
+        idx = sorted(draw(st.sets(st.integers(0, len(consts) - 1), min_size=1, max_size=k)))
+        late = [consts[i] for i in idx]
+        consts = [c for i, c in enumerate(consts) if i not in idx]
+    return {"constants": consts, "script": script, "mode": mode, "late": late}
 
 
 TYPES = [{"prim": "unit"}, {"prim": "nat"}, {"prim": "pair", "args": [{"prim": "int"}, {"prim": "string"}]},
@@ -193,8 +221,10 @@ def contract_case(draw):
 
 def _prop(case, stats):
     res = oracle(case)
-    table = {ref_hash(c): c for c in case["constants"]}
+    table = {ref_hash(c): c for c in case["constants"] + (case.get("late") or [])}
     n, d = count_refs(case["script"], table)
+    if case.get("late"):
+        stats.label("late-registration")
     stats.case(case, d >= 2 or n >= 2, "%s:%s" % (case["mode"], "refs0" if n == 0 else "chain%d" % min(d, 4)),
                sample={"constants": case["constants"][:2], "script": case["script"] if n < 4 else "…", "result": res})
 
